@@ -81,8 +81,12 @@ def run(ctx):
             for sg in (1, -1):
                 tables.append(("translate c=%d" % (sg * c), ["-lift", "translate", "-c", str(sg * c), "-d", str(-sg * c + rng.randrange(-5, 6))],
                                ["add", "sub", "unite", "intersect"]))
-        for k in exps:
-            tables.append(("scale k=%d" % k, ["-lift", "scale", "-k", str(k), "-k2", str(rng.choice(exps))], ["mul", "quo", "lsh", "rsh"]))
+        for k in [0] + exps:
+            for k2 in ([0] + exps if k in (0, 31, 32, 63, 64) else [rng.choice([0] + exps)]):
+                if k == 0 and k2 == 0:
+                    continue
+                tables.append(("scale k=%d,%d" % (k, k2), ["-lift", "scale", "-k", str(k), "-k2", str(k2)], ["mul", "quo", "lsh", "rsh"]))
+        for k in exps + [40, 48, 56]:
             tables.append(("box k=%d" % k, ["-lift", "box", "-k", str(k)], ["and", "or"]))
         for c in (64, 1000, 2 ** 20, 2 ** 31 - 1):
             tables.append(("rshbig +%d" % c, ["-lift", "rshbig", "-c", str(c)], ["rshbig"]))
@@ -90,10 +94,12 @@ def run(ctx):
         c = rng.choice(bigs) * rng.choice((1, -1))
         tables.append(("translate c=%d" % c, ["-lift", "translate", "-c", str(c), "-d", str(rng.choice(bigs) + rng.randrange(-5, 6))],
                        ["add", "sub", "unite", "intersect"]))
-        k = rng.choice(exps)
-        tables.append(("scale k=%d" % k, ["-lift", "scale", "-k", str(k), "-k2", str(rng.choice(exps))], ["mul", "quo", "lsh", "rsh"]))
-        k = rng.choice(exps)
-        tables.append(("box k=%d" % k, ["-lift", "box", "-k", str(k)], ["and", "or"]))
+        # machine-word boundaries are where fast paths go wrong: always one pair with an unscaled operand against 2^63 / 2^64,
+        # one just above 2^32, and a seeded one
+        for (k, k2) in ((0, rng.choice((63, 64))), (rng.choice((32, 33)), rng.choice((0, 31))), (rng.choice(exps), rng.choice(exps))):
+            tables.append(("scale k=%d,%d" % (k, k2), ["-lift", "scale", "-k", str(k), "-k2", str(k2)], ["mul", "quo", "lsh", "rsh"]))
+        for k in (rng.choice((32, 33)), rng.choice(exps)):
+            tables.append(("box k=%d" % k, ["-lift", "box", "-k", str(k)], ["and", "or"]))
         tables.append(("rshbig", ["-lift", "rshbig", "-c", str(rng.choice((64, 1000, 2 ** 20)) + rng.randrange(0, 9))], ["rshbig"]))
 
     rows_total = lifted_total = 0
